@@ -98,6 +98,64 @@ def cells_c04(prop, fe, spec, pk, sh, stats, res, ntrail):
             res.append(f)
 
 
+def run_c04_absent(fe, spec, pk, sh, stats):
+    """languages whose emitted encoder guards a nil/null length-of target (Go, Java): an unset target occupies zero bytes,
+    so the length field must be 0 on the wire whatever the caller stored in it"""
+    import copy
+    res = []
+    if fe.lang not in ('go', 'java'):
+        return res
+    lf = [f for f in pk.fields if f.kind == 'lengthof']
+    if not lf:
+        return res
+    tgt = [f for f in pk.fields if f.name == lf[0].target]
+    if not tgt or tgt[0].kind not in ('match', 'obj') or tgt[0].repeat:
+        return res
+    asm = []
+    msg = build_msg(spec, pk, sh, pk.name, asm)
+    # reference: the same packet with the target replaced by an empty object
+    from .pspec import Packet, F, PSpec
+    spec2 = copy.copy(spec)
+    spec2.packets = list(spec.packets) + [Packet('VerifEmpty', [])]
+    pk2 = Packet(pk.name, [F('obj', f.name, typ='VerifEmpty') if f is tgt[0] else f for f in pk.fields], root=pk.root)
+    msg2 = Msg(pk2)
+    for f in pk.fields:
+        msg2.v[f.name] = Msg(spec2.packet('VerifEmpty')) if f is tgt[0] else msg.v[f.name]
+    rctx = RefCtx(spec2)
+    want = ref_enc(rctx, pk2, msg2)
+    idx = pk.fields.index(tgt[0])
+
+    def run(c):
+        if fe.lang == 'java':
+            fe.reset(c, True, pk)
+            o = fe.to_lang(pk, msg)
+            o.f[fe.members(o.cls.name)[idx]] = None
+            from .fe_java import JBuf
+            buf = JBuf()
+            m = fe.find_method(o.cls.name, 'encode', '(Lio/netty/buffer/ByteBuf;)V')
+            return fe.run(lambda: (fe.exec_method(m, [o, buf]), buf.b)[1])
+        M = fe.machine(c, True, pk)
+        obj, tid = fe.to_lang(pk, msg)
+        obj.cell.v[idx] = None
+        buf = fe.newbuf()
+        fe.run_method(M, tid, 'Encode', obj, buf)
+        from .fe_go import bufstate
+        return bufstate(M, buf).b
+    for r, pc in list(PathCtl(asm).explore(run)):
+        stats.obligations += 1
+        if isinstance(r, Outcome):
+            res.append(Finding('C04', fe.lang, spec.name, pk.name, sh.ident(), 'lengthof:%s:%s' % (lf[0].typ, lf[0].spelling), '*',
+                               'absent-target:outcome:%s:%s' % (r.kind, norm_detail(r.detail)), detail='target unset: %s' % r, cex=first_model(asm + pc, msg)))
+            continue
+        f = compare_bytes('C04', fe.lang, spec2, pk2, sh, rctx, want, r, asm + pc, msg)
+        if f:
+            f.symptom = 'absent-target:' + f.symptom
+            f.prog = spec.name
+            f.detail = 'length-of target left unset (zero bytes on the wire): ' + f.detail
+            res.append(f)
+    return res
+
+
 def run_c05(fe, spec, pk, sh, stats):
     """symbolic key over its whole type: decode dispatches exactly as the table says; encode writes the caller's payload"""
     res = []
@@ -492,6 +550,8 @@ def worker(job):
                     out['findings'].extend(f.as_dict() | {'sig': sig(f)} for f in fs)
                 except Unsupported as u:
                     out['inconclusive'].append(('*', '%s/%s: %s' % (pk.name, sh.ident(), str(u)[:160])))
+                except Exception as ex:
+                    out['inconclusive'].append(('*', 'front-end internal error (cell dropped from the claim): %s: %s' % (type(ex).__name__, str(ex)[:120])))
                 continue
             for lang, fe in fes.items():
                 out['cells'] += 1
@@ -503,6 +563,8 @@ def worker(job):
                         cells_c02(prop, fe, spec, pk, sh, stats, res, ntrail)
                     elif prop == 'C04':
                         cells_c04(prop, fe, spec, pk, sh, stats, res, ntrail)
+                        if sh.s == 1 and not sh.salt:
+                            res.extend(run_c04_absent(fe, spec, pk, sh, stats))
                     elif prop == 'C05':
                         res.extend(run_c05(fe, spec, pk, sh, stats))
                     elif prop == 'C06':
@@ -515,6 +577,8 @@ def worker(job):
                     out['missing'].append((lang, pk.name, str(m)[:200]))
                 except RuntimeError as r:
                     out['inconclusive'].append((lang, 'tool: %s' % str(r)[:160]))
+                except Exception as ex:
+                    out['inconclusive'].append((lang, 'front-end internal error (cell dropped from the claim): %s: %s' % (type(ex).__name__, str(ex)[:120])))
                 out['findings'].extend(f.as_dict() | {'sig': sig(f)} for f in res)
     if len(out['samples']) < 1:
         out['samples'].append({'program': pname, 'dsl': e['dsl'][:600], 'packets': [p.name for p in packets]})
